@@ -61,6 +61,9 @@ class Scripted(System):
                 w.complete()
                 if getattr(w, "shadow", None) is not None:
                     w.shadow.complete()        # the same system then ends the other model of the program as well
+            elif kind == "other_step":
+                if getattr(w, "shadow", None) is not None:
+                    w.shadow.execute()         # another model is stepped from inside this model's timestep
             elif kind == "w":          # an operation on the population / the spatial world, performed in the middle of the timestep
                 getattr(w.world, "op_" + act[1])(*act[2:])
 
@@ -324,6 +327,8 @@ def random_script(rng, ids, serial_of, p_mut):
     if rng.random() >= p_mut:
         return []
     acts = []
+    if rng.random() < 0.3:
+        acts.append(["other_step"])        # first lets the other model of the program (if there is one) do a timestep
     for _ in range(1 if rng.random() < 0.8 else 2):
         r = rng.random()
         if r < 0.35:
